@@ -66,11 +66,15 @@ def fill(rng, c, tag, nrel):
             for i in range(rng.choice([1, 2]))]
     ags = [c.agent(EX2["%sag%d" % (tag, i)], attrs(rng)) for i in range(rng.choice([1, 2]))]
     n = 0
+    mode = {}          # (relation kind, subject) -> identified?  (a subject does not carry an identified
+                       # and an anonymous relation of the same kind: property quantifier)
     for _ in range(nrel):
         k = rng.randrange(12)
         e, e2, a, a2, g, g2 = rng.choice(es), rng.choice(es), rng.choice(acts), rng.choice(acts), rng.choice(ags), rng.choice(ags)
         n += 1
-        ident = EX["%sr%d" % (tag, n)] if rng.random() < 0.5 else None
+        subj = {0: e, 1: a, 2: a, 3: a, 4: e, 5: e, 6: e, 7: a, 8: g, 9: e, 10: e, 11: e}[k]
+        want_id = mode.setdefault((k, subj.identifier.uri), rng.random() < 0.5)
+        ident = EX["%sr%d" % (tag, n)] if want_id else None
         oa = attrs(rng) if ident is not None else None
         t = rng.choice([None] + TIMES)
         qualified = ident is not None
